@@ -172,7 +172,19 @@ def ruleSem (j : Json) : Except String Json := do
   let dets ← (← (← j.getObjVal? "dets").getArr?).toList.mapM fun d => do
     pure ((← getStr d "name"), (← detOfJson (← d.getObjVal? "det")))
   let cond ← getStr j "cond"
-  match ruleBE cx dets cond with
+  -- `extra`: further (detections, condition) parts that must hold as well (applied filters)
+  let extras ← match j.getObjVal? "extra" with
+    | .ok (.arr a) => a.toList.mapM fun x => do
+        let ds ← (← (← x.getObjVal? "dets").getArr?).toList.mapM fun d => do
+          pure ((← getStr d "name"), (← detOfJson (← d.getObjVal? "det")))
+        pure (ds, (← getStr x "cond"))
+    | _ => pure []
+  let whole : Except SpecErr BE :=
+    extras.foldl (fun acc x => match acc, ruleBE cx x.1 x.2 with
+      | .ok a, .ok b => .ok (.and [a, b])
+      | .error e, _ => .error e
+      | _, .error e => .error e) (ruleBE cx dets cond)
+  match whole with
   | .error e => pure (specErrJson e)
   | .ok spec0 =>
     let spec := normBE spec0
